@@ -372,6 +372,7 @@ func (g *gen) bscCreate(name string, more int, emptyList bool) *clientRec {
 	if more > 0 {
 		g.try("emulated-update/bsc", func(ctx sdk.Context) error {
 			store := ck.ClientStore(ctx, name)
+			top := uint64(0)
 			for _, h := range g.heightSet(c.Rev, more, maxI64) {
 				H := clienttypes.NewHeight(c.Rev, h)
 				ck.SetClientConsensusState(ctx, name, H, &bsctypes.ConsensusState{Timestamp: 1640995200 + uint64(g.rng.Intn(1<<20)), Height: H, Root: rnd(g.rng, 32)})
@@ -380,6 +381,21 @@ func (g *gen) bscCreate(name string, more int, emptyList bool) *clientRec {
 					bsctypes.SetPendingValidators(store, g.n.App.AppCodec(), addrBytes(c.bscVals))
 				}
 				c.Heights = append(c.Heights, h)
+				if h > top {
+					top = h
+				}
+			}
+			if top > c.Anchor && g.rng.Intn(2) == 0 {
+				// a real update also makes the accepted header the client state's header: the client's head is then (for all
+				// but one block in `epoch`) NOT an epoch block any more
+				var list []common.Address
+				if top%c.epoch == 0 {
+					list = addrsOf(c.bscVals)
+				}
+				moved := *cs
+				moved.Header = *sealedBscHeader(g.rng, c.bscID, clienttypes.NewHeight(c.Rev, top), list, c.bscVals[g.rng.Intn(len(c.bscVals))])
+				ck.SetClientState(ctx, name, &moved)
+				g.in.feat("bsc-client-head-moved-past-its-anchor")
 			}
 			return nil
 		})
